@@ -171,7 +171,17 @@ impl<T: Qcow2IoOps> Qcow2Dev<T> {
         buf: &mut [u8],
     ) -> Qcow2Result<usize> {
         match mapping.cluster_offset {
-            Some(off) => self.call_read(off + off_in_cls as u64, buf).await,
+            Some(off) => {
+                let done = self.call_read(off + off_in_cls as u64, buf).await?;
+
+                // the mapped cluster may reach beyond the end of the image
+                // file, that part has never been written and reads as zeros
+                if done < buf.len() {
+                    let (_, tail) = buf.split_at_mut(done);
+                    zero_buf!(tail);
+                }
+                Ok(buf.len())
+            }
             None => Err("DataFile mapping: None offset None".into()),
         }
     }
